@@ -50,6 +50,42 @@ CLAIMS = {
   technique='Lean 4 proof (exhaustive case analysis: exactly one outcome and one counter per call) + concurrency counters theorem + differential correspondence + summary parser',
   text='Proof: GoSnaps.Props.C20 proves by case analysis over the step functions shared by all five entry points that every covered call yields exactly one of passed/added/updated/failed, signalled as nothing, one added log, one updated log or one error, and moves exactly the matching counter by one; Props.C06 (counters_sum) lifts the counter identity to every schedule of parallel tests. On the implementation the outcomes are tallied from the mock test log and compared with the counters and with the numbers parsed from the printed summary, for every Clean mode.',
   note='MatchSnapshot(t) without values logs a warning and has no outcome (stated boundary).'),
+ 'C06': dict(
+  technique='Lean 4 proof (serialisability of every schedule, any number of threads, under the lock discipline read from the source; byte-level refinement) + exhaustive schedule exploration of the yieldified real code + race detector',
+  text='Proof: a Lean model of concurrent Match* calls at the granularity read / append / lock+read / truncate / write, with the lock kind of each function regenerated from the source (source_is_all_locked is decided on those facts); GoSnaps.Props.C06 proves for every number of threads and every schedule that outcomes equal the serial ones and the final file holds exactly one entry per addressed slot with the serial value (none lost, duplicated or stale), with concrete lost-update / stale-overwrite / duplicate witnesses when any one of the three locks is missing; Props.C06Refine transports this to the byte-level file through the framing theorems. The real code is rebuilt with yield points inserted by an AST rewriter and a scheduler-aware mutex, and EVERY interleaving of 2 threads x 1 call over all pairs of {create, match, mismatch, update, forbidden} (thorough: 2x2 calls, 3 threads) is executed and compared, schedule by schedule, with the model and with the serial semantics; a -race stress of Match*, Skip* and one shared Config runs under the Go race detector.',
+  note='Partial: atomicity of a single os call (O_APPEND write, truncate), torn reads below one call, and the race detector\'s completeness are runtime behaviour outside the model; threads are assumed to run distinct tests (disjoint slots).'),
+ 'C08': dict(
+  technique='Lean 4 proof (skip protection is exactly the test and its descendants; protected entries are collected, never reported) + differential correspondence with go test -run semantics as oracle',
+  text='Proof: GoSnaps.Props.C08 proves on the model of testSkipped/exScan that a snaps.Skip protects exactly the test itself and names extending it by "/", never siblings sharing a prefix, and that a protected entry is never reported and survives every rewrite. The real Clean is run on generated programs (subsets skipped through the wrappers, -run patterns: names, substrings, alternations, multi-level, anchors, classes) with the selection semantics of testing/match.go re-implemented as oracle for "did not run"; regexp and go/parser results are oracle tables for the model.',
+  note='Partial: regexp.MatchString and go/parser are parameters. Known findings D6 (skip-only files deleted), D7 (pattern applied to the whole id), D8 (custom-named/standalone files of filtered tests deleted).'),
+ 'C11': dict(
+  technique='Lean 4 proof (location = formula of the property over exact filepath Clean/Join/Dir/Base/Ext) + exhaustive white-box comparison + generated Go programs run with the real go test',
+  text='Proof: GoSnaps.Props.C11 states the location as a function of (Config, calling test file, test name, API) only and proves the filename and directory formulas on the Lean model of path/filepath; the model and the formula are compared with the real snapshotPath on all Dir x Filename x Ext x API x name combinations; generated modules (direct calls, helpers in non-test files, closures, goroutines, subtests, nested helpers, sub-packages up to three levels, Config options, -trimpath on/off, test binary executed from another working directory) are run with the real go test and the files found are compared with the formula.',
+  note='Partial: the runtime stack walk (baseCaller), inlining and -trimpath detection are exercised, not proved; with -trimpath the location is relative to the working directory (documented limitation). `%` in names: D12.'),
+ 'C12': dict(
+  technique='Lean 4 proof obligation on extracted fact (no write through *Config anywhere in the source) + model invariance of the Config store + exhaustive sequences shared-vs-fresh Config + race detector',
+  text='Proof: tools/extract lists every assignment through a *Config parameter/receiver or to defaultConfig outside the option constructors; GoSnaps.Props.C12 requires that list to be empty (decide) and proves that no step of the model changes the Config store. All ordered pairs and triples of the five entry points x 4 option sets (plus random sequences) are executed through one shared Config and through a fresh Config per call and compared (events, written paths, final directory); the concurrent stress runs under the race detector.',
+  note='The extractor is syntactic (go/ast): a write through an alias of the pointer would escape it; the behavioural comparison covers that case.'),
+ 'C14': dict(
+  technique='Lean 4 proof of the go-snaps glue relative to an explicit pretty-printer contract + differential correspondence + metamorphic search over presentations',
+  text='Proof (of the glue): GoSnaps.Props.C14 proves, relative to an explicit PrettySpec contract of tidwall/pretty (whitespace invariance, member-order invariance when sorting, losslessness), that the three input forms, whitespace variants and (default options, read from the source) member-order variants store identical text, that MatchStandaloneJSON stores the same text, and that invalid input writes nothing. On the implementation: documents from a random AST x presentations (whitespace incl. \\r, member order) x forms x options; stored bytes identical within a class, stored text parses to the input value, malformed stream gives one failure and an unchanged directory; the whole pipeline result is compared with the model.',
+  note='Partial: the pretty printer and gjson validation are parameters (contract assumed, exercised); string-escape presentation (\\u00e9 vs the character) is not whitespace and is out of scope.'),
+ 'C15': dict(
+  technique='Lean 4 proof of the matcher fold (left to right, failing matcher skipped, errors aggregated) + aliasing facts from the source + ordered structural search on the real matchers',
+  text='Proof (of the glue): GoSnaps.Props.C15 models applyJSONMatchers/applyYAMLMatchers as a fold and proves left-to-right composition, that a failing matcher\'s output never becomes the document and that errors are aggregated; whether the caller\'s bytes can be written is decided from facts read from the source (validateJSON aliases its []byte argument; sjson ReplaceInPlace). The real match.Any/Type/Custom are applied to generated documents (keys needing escapes, array elements, nested; placeholders shorter, longer, needing escapes, non-string) and an ordered flattening of input and output is compared: everything outside the target identical in value and position, the target equal to the placeholder, caller\'s bytes untouched; JSON and YAML.',
+  note='Partial: gjson/sjson/go-yaml path semantics are parameters (lens contract), validated by the search.'),
+ 'C16': dict(
+  technique='Lean 4 proof relative to a lens contract (masked paths irrelevant, unmasked paths relevant) + two-run metamorphic search',
+  text='Proof (relative to LensSpec): GoSnaps.Props.C16 proves that two documents agreeing outside the masked paths produce the same masked document hence the same snapshot and pass against each other, and that a difference at an unmasked path survives masking and is reported (with C13.report_empty_iff). On the implementation: variant A is recorded, variant B (masked and/or unmasked leaves changed) is replayed through MatchJSON/MatchYAML/MatchStandaloneJSON; pass iff only masked leaves changed.',
+  note='Partial: lens laws of sjson/go-yaml assumed; D13 (fixed) was a violation of exactly this.'),
+ 'C17': dict(
+  technique='Lean 4 proof (unconditional: a failing pipeline yields exactly one failure naming every error, writes nothing in every mode, consumes the ordinal) + differential correspondence + failing-matcher search',
+  text='Proof: GoSnaps.Props.C17 proves on the step functions that a validation or matcher failure produces exactly one failure whose message contains match.<Matcher>("<path>") - <reason> for every error in order (through the format string read from the source), leaves the file system untouched in every mode, and bumps the registry exactly like a successful call so later calls keep their slots. The real code is run with all mixes of satisfiable and failing matchers (missing path, wrong type, callback error, ErrOnMissingPath(false)) in every order and mode for JSON, YAML and standalone JSON, with the failing set computed by an independent simulation.',
+  note='Matcher verdicts themselves come from the real match package (oracle lines for the model).'),
+ 'C18': dict(
+  technique='Lean 4 proof of the glue (stored body = escape(document), replay, invalid writes nothing, newline flag) + differential correspondence + verbatim search',
+  text='Proof (of the glue): GoSnaps.Props.C18 proves that for string/byte input without matchers the stored body is escape(document) (identity except whole `---` lines), that it replays, that invalid input writes nothing, and that MarshalFile is asked to append a newline iff the input ended with one. On the implementation: documents with comments, key orders, multi-document streams, block scalars containing `---`, header-looking flow sequences, with and without final newline; stored bytes compared with escape(input); Go values marshalled three times must store identically.',
+  note='Partial: go-yaml (validity, marshalling determinism, AST printing) is a parameter, exercised not proved. A flow sequence equal to a live header at column 0 is finding D9.'),
 }
 
 def main():
